@@ -14,11 +14,11 @@ fn pmsg(p: Box<dyn std::any::Any + Send>) -> String {
 fn load(req: &json::JsonValue) -> json::JsonValue {
     let prog = unhex(req["prog"].as_str().unwrap_or(""));
     let mut out = json::object! {};
-    let r = panic::catch_unwind(|| rbpf::EbpfVmRaw::new(Some(&prog)).map(|_| ()).map_err(|e| e.to_string()));
+    let r = panic::catch_unwind(|| rbpf::EbpfVmRaw::new(Some(&prog)).map(|_| ()).map_err(|e| crate::estr(&e)));
     match r { Err(p) => { out["new"] = "panic".into(); out["msg"] = pmsg(p).into(); }
               Ok(Err(m)) => { out["new"] = "err".into(); out["msg"] = m.into(); }
               Ok(Ok(())) => { out["new"] = "ok".into(); } }
-    let r = panic::catch_unwind(|| { let mut vm = rbpf::EbpfVmMbuff::new(None).unwrap(); vm.set_program(&prog).map_err(|e| e.to_string()) });
+    let r = panic::catch_unwind(|| { let mut vm = rbpf::EbpfVmMbuff::new(None).unwrap(); vm.set_program(&prog).map_err(|e| crate::estr(&e)) });
     match r { Err(p) => { out["set_program"] = "panic".into(); out["msg2"] = pmsg(p).into(); }
               Ok(Err(m)) => { out["set_program"] = "err".into(); out["msg2"] = m.into(); }
               Ok(Ok(())) => { out["set_program"] = "ok".into(); } }
@@ -33,19 +33,21 @@ fn compile(req: &json::JsonValue) -> json::JsonValue {
     let vmk = req["vm"].as_str().unwrap_or("mbuff").to_string();
     let engine = req["engine"].as_str().unwrap_or("jit").to_string();
     let novf = req["verifier"].as_str().unwrap_or("default") == "none";
-    fn accept_all(_p: &[u8]) -> Result<(), std::io::Error> { Ok(()) }
+    fn accept_all(_p: &[u8]) -> Result<(), rbpf::lib::Error> { Ok(()) }
     let mut out = json::object! {};
     let mut haddr = json::JsonValue::new_array();
     for h in req["helpers"].members() { let _ = haddr.push(json::array![h[0].as_u32().unwrap(), format!("{}", crate::helper_by_kind(h[1].as_str().unwrap()) as usize)]); }
     out["helper_addrs"] = haddr;
     let r = panic::catch_unwind(panic::AssertUnwindSafe(|| -> Result<(), String> {
         macro_rules! go { ($ty:ident $(, $extra:expr)*) => {{
-            let mut vm = if novf { let mut vm = rbpf::$ty::new(None $(, $extra)*).map_err(|e| format!("new: {e}"))?; vm.set_verifier(accept_all).map_err(|e| e.to_string())?; vm.set_program(prog $(, $extra)*).map_err(|e| format!("load: {e}"))?; vm }
-                         else { rbpf::$ty::new(Some(prog) $(, $extra)*).map_err(|e| format!("load: {e}"))? };
-            for h in req["helpers"].members() { vm.register_helper(h[0].as_u32().unwrap(), crate::helper_by_kind(h[1].as_str().unwrap())).map_err(|e| e.to_string())?; }
-            if engine == "jit" { vm.jit_compile().map_err(|e| format!("compile: {e}"))?; }
+            let mut vm = if novf { let mut vm = rbpf::$ty::new(None $(, $extra)*).map_err(|e| format!("new: {}", crate::estr(&e)))?; vm.set_verifier(accept_all).map_err(|e| crate::estr(&e))?; vm.set_program(prog $(, $extra)*).map_err(|e| format!("load: {}", crate::estr(&e)))?; vm }
+                         else { rbpf::$ty::new(Some(prog) $(, $extra)*).map_err(|e| format!("load: {}", crate::estr(&e)))? };
+            for h in req["helpers"].members() { vm.register_helper(h[0].as_u32().unwrap(), crate::helper_by_kind(h[1].as_str().unwrap())).map_err(|e| crate::estr(&e))?; }
+            #[cfg(not(feature = "std"))]
+            if engine == "jit" { vm.set_jit_exec_memory(crate::exec_memory(req["exec_mem"].as_usize().unwrap_or(1 << 24))).map_err(|e| format!("set_jit_exec_memory: {}", crate::estr(&e)))?; }
+            if engine == "jit" { vm.jit_compile().map_err(|e| format!("compile: {}", crate::estr(&e)))?; }
             #[cfg(feature = "cranelift")]
-            if engine == "cranelift" { vm.cranelift_compile().map_err(|e| format!("compile: {e}"))?; }
+            if engine == "cranelift" { vm.cranelift_compile().map_err(|e| format!("compile: {}", crate::estr(&e)))?; }
             Ok(())
         }} }
         match vmk.as_str() {
@@ -100,8 +102,8 @@ fn call_helper(req: &json::JsonValue) -> json::JsonValue {
     let a: Vec<u64> = req["args"].members().map(|x| x.as_str().map(|s| s.parse::<u64>().unwrap()).unwrap_or_else(|| x.as_u64().unwrap_or(0))).collect();
     let name = req["name"].as_str().unwrap_or("").to_string();
     let r = panic::catch_unwind(|| match name.as_str() {
-        "rand" => rbpf::helpers::rand(a[0], a[1], a[2], a[3], a[4]),
-        "sqrti" => rbpf::helpers::sqrti(a[0], a[1], a[2], a[3], a[4]),
+        #[cfg(feature = "std")] "rand" => rbpf::helpers::rand(a[0], a[1], a[2], a[3], a[4]),
+        #[cfg(feature = "std")] "sqrti" => rbpf::helpers::sqrti(a[0], a[1], a[2], a[3], a[4]),
         "gather_bytes" => rbpf::helpers::gather_bytes(a[0], a[1], a[2], a[3], a[4]),
         _ => 0,
     });
@@ -120,7 +122,7 @@ fn history(req: &json::JsonValue) -> json::JsonValue {
                 let mut vm = rbpf::EbpfVmNoData::new(Some(p1)).unwrap(); vm.jit_compile().unwrap();
                 vm.set_program(p2).unwrap();
                 let i = vm.execute_program().unwrap();
-                match unsafe { vm.execute_program_jit() } { Ok(j) => (j != i, format!("after set_program: interpreter returns {i}, execute_program_jit returns {j}")), Err(e) => (false, format!("execute_program_jit: {e} (no stale code)")) }
+                match unsafe { vm.execute_program_jit() } { Ok(j) => (j != i, format!("after set_program: interpreter returns {i}, execute_program_jit returns {j}")), Err(e) => (false, format!("execute_program_jit: {} (no stale code)", crate::estr(&e))) }
             }
             #[cfg(feature = "cranelift")]
             "stale-cranelift-code-kept" => {
@@ -134,24 +136,24 @@ fn history(req: &json::JsonValue) -> json::JsonValue {
                 let mut a = (false, String::new());
                 {
                     let mut vm = rbpf::EbpfVmNoData::new(Some(p1)).unwrap(); vm.jit_compile().unwrap();
-                    let before = unsafe { vm.execute_program_jit() }.map_err(|e| e.to_string());
+                    let before = unsafe { vm.execute_program_jit() }.map_err(|e| crate::estr(&e));
                     let e = vm.set_program(bad).is_err();
-                    let after = unsafe { vm.execute_program_jit() }.map_err(|e| e.to_string());
+                    let after = unsafe { vm.execute_program_jit() }.map_err(|e| crate::estr(&e));
                     if e && before != after { a = (true, format!("refused set_program changed execute_program_jit from {before:?} to {after:?}")); }
                 }
                 #[cfg(feature = "cranelift")]
                 if !a.0 {
                     let mut vm = rbpf::EbpfVmNoData::new(Some(p1)).unwrap(); vm.cranelift_compile().unwrap();
-                    let before = vm.execute_program_cranelift().map_err(|e| e.to_string());
+                    let before = vm.execute_program_cranelift().map_err(|e| crate::estr(&e));
                     let e = vm.set_program(bad).is_err();
-                    let after = vm.execute_program_cranelift().map_err(|e| e.to_string());
+                    let after = vm.execute_program_cranelift().map_err(|e| crate::estr(&e));
                     if e && before != after { a = (true, format!("refused set_program changed execute_program_cranelift from {before:?} to {after:?}")); }
                 }
                 if !a.0 {
                     let mut vm = rbpf::EbpfVmNoData::new(Some(p1)).unwrap();
-                    let before = vm.execute_program().map_err(|e| e.to_string());
+                    let before = vm.execute_program().map_err(|e| crate::estr(&e));
                     let e = vm.set_program(bad).is_err();
-                    let after = vm.execute_program().map_err(|e| e.to_string());
+                    let after = vm.execute_program().map_err(|e| crate::estr(&e));
                     if e && before != after { a = (true, format!("refused set_program changed execute_program from {before:?} to {after:?}")); }
                 }
                 if a.0 { return a; }
@@ -170,6 +172,65 @@ fn history(req: &json::JsonValue) -> json::JsonValue {
     });
     match r { Err(p) => json::object! { "status": "panic", "detail": pmsg(p), "reproduced": true },
               Ok((rep, d)) => if d == "unsupported" { json::object! { "status": "unsupported" } } else { json::object! { "status": "ok", "reproduced": rep, "detail": d } } }
+}
+
+// a fixed battery of API call sequences on every VM kind; the transcript (one line per call) is compared between builds (C20)
+fn api_transcript(_req: &json::JsonValue) -> json::JsonValue {
+    let p1: &'static [u8] = &[0xb7, 0, 0, 0, 1, 0, 0, 0, 0x95, 0, 0, 0, 0, 0, 0, 0];       // mov r0, 1; exit
+    let p2: &'static [u8] = &[0xb7, 0, 0, 0, 2, 0, 0, 0, 0x95, 0, 0, 0, 0, 0, 0, 0];       // mov r0, 2; exit
+    // mov r1..r5, 5..9; call 1; exit   (every helper argument defined)
+    let ph: &'static [u8] = &[0xb7, 1, 0, 0, 5, 0, 0, 0, 0xb7, 2, 0, 0, 6, 0, 0, 0, 0xb7, 3, 0, 0, 7, 0, 0, 0, 0xb7, 4, 0, 0, 8, 0, 0, 0, 0xb7, 5, 0, 0, 9, 0, 0, 0,
+                              0x85, 0, 0, 0, 1, 0, 0, 0, 0x95, 0, 0, 0, 0, 0, 0, 0];
+    let bad: &'static [u8] = &[0xb7, 0, 0, 0, 2, 0, 0, 0];
+    fn accept_all(_p: &[u8]) -> Result<(), rbpf::lib::Error> { Ok(()) }
+    fn reject_all(_p: &[u8]) -> Result<(), rbpf::lib::Error> { Err(rbpf::lib::Error::new(rbpf::lib::ErrorKind::Other, "rejected by the custom verifier")) }
+    let r = panic::catch_unwind(|| -> Vec<String> {
+        let mut t: Vec<String> = Vec::new();
+        macro_rules! rec { ($name:expr, $e:expr) => { { let r_ = $e; t.push(format!("{}: {}", $name, match r_ { Ok(v) => format!("Ok({:?})", v), Err(e) => format!("Err({})", crate::estr(&e)) })) } } }
+        macro_rules! jitc { ($vm:expr) => {{
+            #[cfg(not(feature = "std"))] { let _ = $vm.set_jit_exec_memory(crate::exec_memory(1 << 16)); }
+            $vm.jit_compile() }} }
+        macro_rules! battery { ($tag:literal, $ty:ident, [$($nx:expr),*], [$($ex:expr),*]) => {{
+            let mut vm = rbpf::$ty::new(Some(p1) $(, $nx)*).unwrap();
+            rec!(concat!($tag, " exec"), vm.execute_program($($ex),*));
+            rec!(concat!($tag, " exec_jit before compile"), unsafe { vm.execute_program_jit($($ex),*) });
+            rec!(concat!($tag, " jit_compile"), jitc!(vm));
+            rec!(concat!($tag, " exec_jit"), unsafe { vm.execute_program_jit($($ex),*) });
+            rec!(concat!($tag, " set_program(p2)"), vm.set_program(p2 $(, $nx)*));
+            rec!(concat!($tag, " exec_jit after set_program"), unsafe { vm.execute_program_jit($($ex),*) });
+            rec!(concat!($tag, " exec after set_program"), vm.execute_program($($ex),*));
+            rec!(concat!($tag, " jit_compile again"), jitc!(vm));
+            rec!(concat!($tag, " exec_jit again"), unsafe { vm.execute_program_jit($($ex),*) });
+            rec!(concat!($tag, " set_program(bad)"), vm.set_program(bad $(, $nx)*));
+            rec!(concat!($tag, " exec_jit after refused set_program"), unsafe { vm.execute_program_jit($($ex),*) });
+            rec!(concat!($tag, " exec after refused set_program"), vm.execute_program($($ex),*));
+            rec!(concat!($tag, " register_helper"), vm.register_helper(1, crate::helper_by_kind("h1")));
+            rec!(concat!($tag, " set_program(helper user)"), vm.set_program(ph $(, $nx)*));
+            rec!(concat!($tag, " exec helper"), vm.execute_program($($ex),*));
+            rec!(concat!($tag, " jit_compile helper"), jitc!(vm));
+            rec!(concat!($tag, " exec_jit helper"), unsafe { vm.execute_program_jit($($ex),*) });
+            let mut vm = rbpf::$ty::new(None $(, $nx)*).unwrap();
+            rec!(concat!($tag, " exec without program"), vm.execute_program($($ex),*));
+            rec!(concat!($tag, " jit_compile without program"), jitc!(vm));
+            rec!(concat!($tag, " exec_jit without program"), unsafe { vm.execute_program_jit($($ex),*) });
+            rec!(concat!($tag, " set_verifier(reject)"), vm.set_verifier(reject_all));
+            rec!(concat!($tag, " set_program under reject"), vm.set_program(p1 $(, $nx)*));
+            rec!(concat!($tag, " exec under reject"), vm.execute_program($($ex),*));
+            rec!(concat!($tag, " set_verifier(accept)"), vm.set_verifier(accept_all));
+            rec!(concat!($tag, " set_program(bad) under accept"), vm.set_program(bad $(, $nx)*));
+            rec!(concat!($tag, " set_program(p1) under accept"), vm.set_program(p1 $(, $nx)*));
+            rec!(concat!($tag, " set_verifier(reject) with program"), vm.set_verifier(reject_all));
+            rec!(concat!($tag, " exec at end"), vm.execute_program($($ex),*));
+        }} }
+        macro_rules! mb { () => { &mut Box::leak(vec![0u8; 32].into_boxed_slice())[..] } }
+        battery!("nodata", EbpfVmNoData, [], []);
+        battery!("raw", EbpfVmRaw, [], [mb!()]);
+        battery!("mbuff", EbpfVmMbuff, [], [mb!(), mb!()]);
+        battery!("fixed", EbpfVmFixedMbuff, [0, 8], [mb!()]);
+        t
+    });
+    match r { Err(p) => json::object! { "status": "panic", "msg": pmsg(p) },
+              Ok(t) => json::object! { "status": "ok", "transcript": json::JsonValue::Array(t.into_iter().map(|x| x.into()).collect()) } }
 }
 
 fn assemble(req: &json::JsonValue) -> json::JsonValue {
@@ -194,6 +255,7 @@ pub fn dispatch(op: &str, req: &json::JsonValue) -> json::JsonValue {
         "assemble" => assemble(req),
         "disassemble" => disassemble(req),
         "history" => history(req),
+        "api_transcript" => crate::isolated(req, api_transcript),
         "call_helper" => call_helper(req),
         "load" => load(req),
         "compile" => if req["isolate"].as_bool().unwrap_or(false) { crate::isolated(req, compile_twice) } else { compile(req) },
